@@ -263,7 +263,11 @@ func cmdEval(prop string, n int, seed uint64, driver, out, corpus string) (*Resu
 			res.DistinctNontrivial++
 		}
 		seen[h] = true
-		gp, mp := project(prop, gout), project(prop, mo)
+		pp := prop
+		if os.Getenv("VERIF_FULL") != "" {
+			pp = "FULL"
+		}
+		gp, mp := project(pp, gout), project(pp, mo)
 		if mo.Status == 99 {
 			res.Notes = append(res.Notes, fmt.Sprintf("case %d: model could not decode the case (harness bug)", i))
 		}
